@@ -1274,9 +1274,17 @@ fn freeze_strategy(_t: Tier) -> BoxedStrategy<Scenario> {
         // (in half of these the adder is first held for a while inside add_stream by a StallCall
         // schedule, so that the siblings and the producers move on before the new stream is
         // published; the sweep then suspends it for good at every later point)
-        2 => (gen::addstream_plan(), gen::stall_call_schedule(300, &[14]), any::<bool>()).prop_map(|(mut pl, stall, use_stall)| {
+        2 => (gen::addstream_plan(), gen::stall_call_schedule(300, &[14]), any::<bool>(), 2u8..8, 2u8..40).prop_map(|(mut pl, mut stall, use_stall, nth, hold)| {
             use crate::handles::WaitKind;
             if use_stall {
+                // the adder is the (producers + 2)-nd thread the controller starts; it is held at
+                // one of the points around its position copy and the publication of the new list,
+                // for a bounded time, so that siblings and producers move on in between
+                if let crate::rt::Policy::StallCall { victim, nth: n, hold: h, .. } = &mut stall.policy {
+                    *victim = pl.producers.len() as u8 + 2;
+                    *n = nth;
+                    *h = hold;
+                }
                 pl.sched = stall;
             }
             pl.parent_handles = 2 + pl.parent_handles % 2;
